@@ -295,6 +295,66 @@ func joinIv(a, b ival) ival {
 	return a
 }
 
+// stackHelper summarises a non-scanner method of the state that touches the
+// path stack on a single straight path (e.g. an extracted popPath): its net
+// delta, the depth it needs on entry, and the pop stores it contains.
+type stackHelper struct {
+	delta, need int
+	pops        []*ssa.Store
+	ok          bool
+}
+
+func stackHelperOf(m *jsonModel, g *ssa.Function) *stackHelper {
+	if g == nil || g.Blocks == nil || m.fam[g] || g == m.reset || g == m.parse || g.Signature.Recv() == nil || !m.isState(g.Signature.Recv().Type()) {
+		return nil
+	}
+	h := &stackHelper{ok: true}
+	touched := false
+	depth := 0
+	if len(g.Blocks) != 1 {
+		// only straight-line helpers are summarised
+		for _, b := range g.Blocks {
+			for _, in := range b.Instrs {
+				if st, ok := in.(*ssa.Store); ok {
+					if fa, ok := st.Addr.(*ssa.FieldAddr); ok && fa.Field == m.stackF && m.isState(fa.X.Type()) {
+						return &stackHelper{ok: false}
+					}
+				}
+			}
+		}
+		return nil
+	}
+	for _, in := range g.Blocks[0].Instrs {
+		st, ok := in.(*ssa.Store)
+		if !ok {
+			continue
+		}
+		fa, ok := st.Addr.(*ssa.FieldAddr)
+		if !ok || fa.Field != m.stackF || !m.isState(fa.X.Type()) {
+			continue
+		}
+		touched = true
+		d, k := stackEffect(st, m.stackF)
+		switch k {
+		case "push":
+			depth += d
+		case "pop":
+			if -depth+1 > h.need {
+				h.need = -depth + 1
+			}
+			depth += d
+			h.pops = append(h.pops, st)
+		default:
+			h.ok = false
+		}
+	}
+	if !touched {
+		return nil
+	}
+	h.delta = depth
+	return h
+}
+
 type stackSite struct {
 	f     *ssa.Function
 	key   string
@@ -373,6 +433,27 @@ func stackAnalysis(c *core.Ctx) []stackSite {
 						key := fmt.Sprintf("%s: stack store#%d", f.Name(), ordinalOfStore(f, x, m.stackF))
 						set(key, x.Pos(), x, "", "unrecognised store to the path stack inside the scanner ("+k+")", "")
 					}
+				case *ssa.Call:
+					hs := stackHelperOf(m, x.Call.StaticCallee())
+					if hs == nil {
+						continue
+					}
+					key := fmt.Sprintf("%s: stack helper %s", f.Name(), callOrdinal(x))
+					var st0 *ssa.Store
+					if len(hs.pops) > 0 {
+						st0 = hs.pops[0]
+					}
+					switch {
+					case !hs.ok:
+						set(key, x.Pos(), st0, "", "helper touches the path stack in a way that cannot be summarised", "")
+					case cur.all < hs.need:
+						set(key, x.Pos(), st0, fmt.Sprintf("pop (in helper %s) may underflow: lower bound of stack depth relative to entry is %d here", x.Call.StaticCallee().Name(), cur.all), "", "")
+					default:
+						set(key, x.Pos(), st0, "", "", fmt.Sprintf("helper delta %+d, depth >= entry+%d", hs.delta, cur.all))
+					}
+					cur.succ.lo += hs.delta
+					cur.succ.hi += hs.delta
+					cur.all += hs.delta
 				case *ssa.Return:
 					key := fmt.Sprintf("%s: %s", f.Name(), returnOrdinal(x))
 					if core.IsConstInt(x.Results[0], 0) {
@@ -455,6 +536,19 @@ var ruleStackBalance = &core.Rule{ID: "R10.1", Min: 25,
 		// the reset routine must empty the stack (C04 also checks it); and nothing outside family/reset/entry stores it
 		for _, f := range c.SrcFuncs() {
 			if m.fam[f] {
+				continue
+			}
+			if hs := stackHelperOf(m, f); hs != nil && hs.ok {
+				// summarised at its call sites; it must only be called from the scanner
+				onlyFam := true
+				for _, g := range c.SrcFuncs() {
+					for _, ci := range core.Calls(g) {
+						if ci.Common().StaticCallee() == f && !m.fam[g] {
+							onlyFam = false
+						}
+					}
+				}
+				s.Check(onlyFam, core.FName(f)+": stack helper called from the scanner only", c.Pos(f.Pos()), "summarised at call sites", "a helper that pushes / pops the path stack is called from outside the scanner")
 				continue
 			}
 			for _, b := range f.Blocks {
